@@ -5,6 +5,7 @@
    translator read from ITS OWN copy of the code (GenHashTags.v) with the FNV constants
    from GenArith.v; spec_key / stream: the documented key (Spec/KeySpec.v). *)
 From PV Require Import Base DataModel Schema SchemaDecl GenHashTags Key KeyOps KeySpec SchemaConv SchemaOps KeyFacts.
+From PV Require Import GenKeyFns.
 Open Scope N_scope.
 
 (* compile-time hasher = documented stream; run-time hasher = documented stream *)
@@ -54,6 +55,18 @@ Example C16_example :
   schema_wf bar = true /\ key_const [112] bar = Some (spec_key [112] bar) /\ length (spec_key [112] bar) = 8%nat.
 Proof. repeat split; vm_compute; reflexivity. Qed.
 
+(* Key::for_path / from_bytes / to_bytes / const_cmp / for_owned_schema_path of key/mod.rs match their
+   templates: the key is the hasher's output for the type's SCHEMA (resp. the owned schema) and the
+   path, kept as 8 bytes *)
+Theorem C16_key_functions_are_the_source :
+  key_fns_matched =
+  [[99; 111; 110; 115; 116; 95; 99; 109; 112];
+   [102; 111; 114; 95; 111; 119; 110; 101; 100; 95; 115; 99; 104; 101; 109; 97; 95; 112; 97; 116; 104];
+   [102; 111; 114; 95; 112; 97; 116; 104];
+   [102; 114; 111; 109; 95; 98; 121; 116; 101; 115];
+   [116; 111; 95; 98; 121; 116; 101; 115]].
+Proof. exact (eq_refl key_fns_matched). Qed.
+
 Print Assumptions C16_const_is_documented.
 Print Assumptions C16_owned_is_documented.
 Print Assumptions C16_hashers_agree.
@@ -62,3 +75,4 @@ Print Assumptions C16_one_byte_changes_key.
 Print Assumptions C16_tags_distinct.
 Print Assumptions C16_order_sensitivity_refuted.
 Print Assumptions C16_swap_condition.
+Print Assumptions C16_key_functions_are_the_source.
